@@ -347,7 +347,7 @@ def freq_shift(z, /, shift):
 
     x = np.fft.fftshift(pb.fft.fft(z.data * ph, axis=0), axes=(0,))
 
-    it = np.nditer(ft * len(x), flags=["multi_index"])
+    it = np.nditer(np.broadcast_to(ft * len(x), z.sample_shape), flags=["multi_index"])
     for a in it:
         if a < 0:
             a = int(np.floor(a))
